@@ -522,7 +522,12 @@ var PowFunc = function.New(&function.Spec{
 			return cty.UnknownVal(cty.String), err
 		}
 
-		return cty.NumberFloatVal(math.Pow(num, power)), nil
+		result := math.Pow(num, power)
+		if math.IsNaN(result) {
+			// e.g. a negative number raised to a fractional power
+			return cty.NilVal, fmt.Errorf("%s raised to the power %s is not a real number", args[0].AsBigFloat().Text('g', 10), args[1].AsBigFloat().Text('g', 10))
+		}
+		return cty.NumberFloatVal(result), nil
 	},
 })
 
